@@ -100,11 +100,13 @@ Definition env_de_json (bs : list N) : option (pag_version * sel) :=
    KArith first step down count = first, first +/- step, ... (count keys). *)
 Inductive keys :=
 | KList (l : list N)
+| KOff (base : N) (offsets : list N)      (* base + offset, for runs of large keys *)
 | KArith (first step : N) (down : bool) (count : N).
 
 Definition expand (k : keys) : list N :=
   match k with
   | KList l => l
+  | KOff base offsets => map (N.add base) offsets
   | KArith first step down count =>
       map (fun i => let d := N.of_nat i * step in if down then first - d else first + d)
           (seq 0 (N.to_nat count))
